@@ -329,7 +329,10 @@ func (fi *FileInfo) checkObjects() error {
 			// cycles, so this stays safe on malformed input.
 			x, endPos, err := fi.doRead(objInfo, fi.makeSafeGetInt(), false)
 			if err != nil {
-				if IsMalformed(err) {
+				// An object which runs into the end of the file (for example
+				// in a truncated file) is broken, like any other malformed
+				// object; it must not abort the scan.
+				if IsMalformed(err) || errors.Is(err, io.EOF) || errors.Is(err, io.ErrUnexpectedEOF) {
 					objInfo.Broken = true
 					continue
 				}
